@@ -20,7 +20,7 @@ class Stub:
         self.bands = bands            # list of dict(ci=0..4, maskdesc=bool, cw=float|None)
         self.count = len(bands)
         self.colorinterp = [CI[b['ci']] for b in bands]
-        self.descriptions = tuple((f'B{i + 1}_MASK' if b['maskdesc'] else (f'B{i + 1}' if b.get('named', True) else None))
+        self.descriptions = tuple((f'B{i + 1}' + ('_MASK', '_DIST')[i % 2] if b['maskdesc'] else (f'B{i + 1}' if b.get('named', True) else None))
                                   for i, b in enumerate(bands))
 
     def tags(self, bi=None):
